@@ -385,3 +385,86 @@ def build_raw(raw: Any) -> tuple[list[Any], list[list[Any]], list[Any]]:
             n += 1
         out.append(ops)
     return infos, out, [None] * len(routines)
+
+
+# ---- F5: macros -------------------------------------------------------------------------------------------------
+def _macro_body(name: str, params: list[str], callees: list[tuple[str, list[Any]]], variant: int) -> list[tuple]:
+    """body using its parameters as op argument, condition operand and with-target; private labels; return"""
+    p0 = C(params[0]) if params else 1
+    body: list[tuple] = [op(f"{name}_in", p0)]
+    if variant % 3 == 0:
+        body += [("if", False, [("c_op", p0, "==", 3, False)], [op(f"{name}_t"), ("ctrl", "return")], [], None)]
+    elif variant % 3 == 1:
+        body += [("label", "again"), op(f"{name}_loop"), ("if", variant % 2 == 1, [("c_neg", False, "debug")], [("jump", "again")], [], None)]
+    else:
+        body += [("with", "actor", p0, op(f"{name}_ctx"))]
+    for (callee, args) in callees:
+        body.append(("macrocall", callee, args))
+    body.append(op(f"{name}_out", *[C(p) for p in params]))
+    return body
+
+
+def f5_macros(tier: str, seed: int) -> Iterator[tuple[str, dict[str, Any]]]:
+    """all labelled DAGs on <= 3 (quick) / 4 (thorough) macros x definition orders x call order; same file and
+    imported layouts"""
+    maxn = 3 if tier == "quick" else 4
+    names = ["ma", "mb", "mc", "md"]
+    count = 0
+    for n in range(1, maxn + 1):
+        pairs = [(i, j) for i in range(n) for j in range(i + 1, n)]  # edge i -> j : macro i calls macro j (acyclic)
+        for mask in range(1 << len(pairs)):
+            edges = [pairs[k] for k in range(len(pairs)) if mask >> k & 1]
+            for rev in (False, True):
+                macros = []
+                for i in range(n):
+                    callees_idx = [j for (a, j) in edges if a == i]
+                    if rev:
+                        callees_idx = list(reversed(callees_idx))
+                    params = ["$p", "$q"][: 1 + (i % 2)]
+                    callees = [(names[j], [C("$p"), 7][: 1 + (j % 2)]) for j in callees_idx]
+                    macros.append(("macro", names[i], params, _macro_body(names[i], params, callees, i + mask)))
+                # the routine calls every root (macro nobody calls) twice with different arguments
+                called = {j for (_a, j) in edges}
+                body: list[tuple] = [op("begin")]
+                for i in range(n):
+                    if i not in called:
+                        body.append(("macrocall", names[i], [C("$VAR_A"), 5][: 1 + (i % 2)]))
+                        body.append(("macrocall", names[i], [3, ("str", "s")][: 1 + (i % 2)]))
+                body += [op("finish"), ("ctrl", "end")]
+                orders = list(itertools.permutations(range(n)))
+                if tier == "quick" and n == 3:
+                    orders = orders[::1]
+                for oi, order in enumerate(orders):
+                    ms = [macros[i] for i in order]
+                    count += 1
+                    yield f"F5.{n}.{mask}.{int(rev)}.o{oi}", {"macros": ms, "routines": [("def", 0, body)]}
+                # imported layouts for the definition order as written
+                if not rev:
+                    yield (f"F5.{n}.{mask}.imp", {"imports": ["./lib.exps"], "macros": macros[:1],
+                                                  "routines": [("def", 0, body)],
+                                                  "files": {"lib.exps": {"macros": macros[1:]}}} if n > 1 else
+                           {"macros": macros, "routines": [("def", 0, body)]})
+                    if n >= 3:
+                        yield (f"F5.{n}.{mask}.imp2",
+                               {"imports": ["./sub/l1.exps"], "macros": macros[:1], "routines": [("def", 0, body)],
+                                "files": {"sub/l1.exps": {"imports": ["../l2.exps"], "macros": macros[1:2]},
+                                          "l2.exps": {"macros": macros[2:]}}})
+    # parameter kinds
+    kinds: list[Any] = [C("$VAR"), C("CONST"), 5, ("str", "text"), ("lstr", {"english": "e"}), ("dec", "1.5"),
+                        ("pos", "m", "1", "2.5")]
+    for ki, k in enumerate(kinds):
+        yield f"F5.arg.{ki}", {"macros": [("macro", "m", ["$x"], [op("use", C("$x"), 1), ("ctrl", "return"), op("dead")])],
+                              "routines": [("def", 0, [("macrocall", "m", [k]), op("after"), ("ctrl", "end")])]}
+    yield "F5.labels", {"macros": [("macro", "m", [], [("label", "l"), op("x"), ("if", False, [("c_neg", False, "debug")],
+                                                                                       [("jump", "l")], [], None)])],
+                        "routines": [("def", 0, [("label", "l"), ("macrocall", "m", []), ("macrocall", "m", []),
+                                                 ("if", False, [("c_neg", False, "edit")], [("jump", "l")], [], None),
+                                                 ("ctrl", "end")])]}
+    yield "F5.retlast", {"macros": [("macro", "m", [], [op("x"), ("ctrl", "return")])],
+                         "routines": [("def", 0, [("macrocall", "m", [])])]}
+    yield "F5.inblocks", {"macros": [("macro", "m", ["$a"], [("switch", ("h_var", C("$a")), [(("k_val", 1), [("ctrl", "return")]),
+                                                                                            (None, [op("d")])]), op("tail")])],
+                          "routines": [("def", 0, [("forever", [("macrocall", "m", [C("$V")]), ("ctrl", "break_loop")]),
+                                                   ("switch", ("h_var", 1), [(("k_val", 2), [("macrocall", "m", [2]),
+                                                                                             ("ctrl", "break")])]),
+                                                   ("ctrl", "end")])]}
